@@ -87,8 +87,10 @@ fn expected(w: &W, op: &OpSpec, refs: &[R]) -> Result<Vec<R>, String> {
     }))
 }
 
-fn is_equals_special(op: &OpSpec) -> bool {
-    op.k == K::Equals && !op.all && !op.neg
+/// "Only the equality relation also returns the reference selection itself": with or without the `all` modifier when
+/// there is one reference (for a single reference `all` changes nothing)
+fn is_equals_special(op: &OpSpec, refs: &[R]) -> bool {
+    op.k == K::Equals && !op.neg && (!op.all || refs.len() == 1)
 }
 
 fn geometry_class(w: &W, refs: &[R], t: &R) -> &'static str {
@@ -117,7 +119,7 @@ fn check(rep: &mut Report, w: &W, text: &str, op: &OpSpec, refs: &[R]) {
     };
     rep.count(&format!("find:{}", op.name()));
     let mut nontrivial = false;
-    if is_equals_special(op) {
+    if is_equals_special(op, refs) {
         // equality: exactly the known selections with the references' ranges (single reference: the oracle is plain)
         if refs.len() == 1 {
             let want: Vec<R> = w.known.iter().filter(|t| **t == refs[0]).cloned().collect();
